@@ -75,22 +75,31 @@ Theorem C04_handshake_checker_decides_spec : forall o, handshake_ok o = true <->
 Proof. exact handshake_ok_iff. Qed.
 Print Assumptions C04_handshake_checker_decides_spec.
 
-(** Non-vacuity. *)
-Definition w618 : str := [50;48;50;53;45;48;54;45;49;56].     (* 2025-06-18 *)
-Definition w326 : str := [50;48;50;53;45;48;51;45;50;54].     (* 2025-03-26 *)
-Definition w1105 : str := [50;48;50;52;45;49;49;45;48;53].    (* 2024-11-05 *)
+(** Non-vacuity, phrased over the regenerated constants so that a harmless
+    change of the library's version list does not break it: the only pinned
+    fact is that "1999-01-01" is NOT a supported version. *)
 Definition w1999 : str := [49;57;57;57;45;48;49;45;48;49].    (* 1999-01-01 *)
 
 Example C04_nonvacuous :
-  In w326 SUPPORTED_VERSIONS
-  /\ server_answer (RStr w326) = Some w326
-  /\ server_answer (RStr w1999) = Some w618
-  /\ server_answer RNonStr = Some w618
-  /\ server_answer RAbsent = Some w326
-  /\ session_version (RStr w1999) = Some w618
-  /\ propose [w1999; w1105] None = Some w1999
-  /\ out (client_init (Some [w1999; w1105]) None [IAnswer (server_response w1999)] EndSilence true) = VersionMismatch
-  /\ out (client_init (Some [w1999; w618]) None [IAnswer (server_response w1999)] EndSilence true) = Ok w618
-  /\ out (client_init None (Some w1105) [INoise; IAnswer (server_response w1105)] EndSilence true) = Ok w1105
+  In CURRENT_VERSION SUPPORTED_VERSIONS
+  /\ ~ In w1999 SUPPORTED_VERSIONS
+  /\ server_answer (RStr CURRENT_VERSION) = Some CURRENT_VERSION
+  /\ (exists v, server_answer (RStr w1999) = Some v /\ v <> w1999 /\ session_version (RStr w1999) = Some v)
+  /\ (exists v, server_answer RNonStr = Some v)
+  /\ (exists v, server_answer RAbsent = Some v)
+  /\ propose [w1999] None = Some w1999
+  /\ out (client_init (Some [w1999]) None [IAnswer (server_response w1999)] EndSilence true) = VersionMismatch
+  /\ (exists v, out (client_init (Some (w1999 :: SUPPORTED_VERSIONS)) None
+                      [IAnswer (server_response w1999)] EndSilence true) = Ok v)
+  /\ out (client_init None (Some CURRENT_VERSION) [INoise; IAnswer (server_response CURRENT_VERSION)] EndSilence true)
+     = Ok CURRENT_VERSION
   /\ server_ok (srv_obs_of (RStr w1999)) = true.
-Proof. repeat split; try reflexivity. vm_compute. auto. Qed.
+Proof.
+  repeat split; try (vm_compute; reflexivity).
+  - apply mem_str_In. vm_compute. reflexivity.
+  - apply mem_str_not_In. vm_compute. reflexivity.
+  - vm_compute. eexists. repeat split. discriminate.
+  - vm_compute. eexists. reflexivity.
+  - vm_compute. eexists. reflexivity.
+  - vm_compute. eexists. reflexivity.
+Qed.
